@@ -123,6 +123,10 @@ func ReadFile(r Reader, out interface{}, cb func(val unsafe.Pointer, rb *Resourc
 			return fmt.Errorf("compression codec %s not supported", string(compress))
 		}
 	}
+	if decoder == nil {
+		// The spec says a file without avro.codec is uncompressed.
+		decoder = nullCompression{}
+	}
 
 	schema, err := fh.schema()
 	if err != nil {
